@@ -1211,7 +1211,7 @@ def c07(ctx):
     # superseded / cancelled accepts, a closed acceptor, a dead target: pairing invariants in every reachable state
     vlib.tlc_mc(ctx, "MCTcp.tla", "MC_Tcp_pair.cfg", timeout=900,
                 ignore_actions=("AConnectOk", "AAborted", "ACancel", "ADrop", "ARead", "AReadData", "AReadEof", "AReady", "AResend",
-                                "ASend", "AWrite", "AWriteDone", "AWriteFailed"))
+                                "ASend", "AWrite", "AWriteDone", "AWriteFailed", "ASupersede", "ALate"))
     tcp_pipeline(ctx, "C07", n_quick=400)
 
 
@@ -1527,7 +1527,7 @@ def parse_pcap(path):
 
 
 def pcap_run_events(run_lines, proto, pcap_path, tick_ns=10):
-    """Builds the TracePcap events of one run: W (first-hop transmissions) then R (file records)."""
+    """Builds the TracePcap events of one run: W (first-hop transmissions) and R (file records)."""
     evs = []
     conns = {}
     for l in run_lines:
@@ -1551,7 +1551,16 @@ def pcap_run_events(run_lines, proto, pcap_path, tick_ns=10):
                 evs.append({"e": "W", "proto": "udp", "k": "u", "src": o["from"], "dst": o["dst"], "len": o["len"],
                             "dig": o["dig"], "tus": [(o["t"] * tick_ns // 1000) // 1000000, (o["t"] * tick_ns // 1000) % 1000000]})
     ok, recs, trailing, err = parse_pcap(pcap_path)
-    return [{"e": "Cfg", "magic_ok": ok}] + evs + recs + [{"e": "End", "trailing": trailing}], err, len(recs)
+    # the two sequences are merged pairwise (k-th transmission, k-th record): the specification compares every record
+    # with the oldest transmission not yet matched, so this keeps its state small without changing what is checked
+    # (a missing record leaves a transmission unmatched at End, an extra one finds nothing to match)
+    merged = []
+    for k in range(max(len(evs), len(recs))):
+        if k < len(evs):
+            merged.append(evs[k])
+        if k < len(recs):
+            merged.append(recs[k])
+    return [{"e": "Cfg", "magic_ok": ok}] + merged + [{"e": "End", "trailing": trailing}], err, len(recs)
 
 
 @check("C19", "model_checking")
